@@ -401,6 +401,8 @@ class LifeHarness:
                 if u == "start" and self.legal_only and w.state() != "INITIALIZED":
                     continue
                 base.append(u)
+        if "disc2" in self.user and "disc" in w.tasks and "disc2" not in w.tasks:
+            base.append("disc2")  # a second disconnect() while (or after) the first one runs - two parts of an application shutting down
         if "force" in self.user and not w.force_called:
             base.append("force")
         if "cancel" in self.user:
@@ -475,6 +477,8 @@ class LifeHarness:
             w.spawn("finish", lambda: conn.finish_connection(login=login))
         elif label == "disc":
             w.spawn("disc", conn.disconnect)
+        elif label == "disc2":
+            w.spawn("disc2", conn.disconnect)
         elif label == "force":
             w.force_called = True
             try:
